@@ -66,7 +66,7 @@ static void embed_label_flow_s() {
   const uint32_t size = DS ? DS : (x64 ? 8 : 4);
   size_t emitted = size_t(a->_buffer_ptr - sbuf[sid]) - pos;
   if (!valid) {
-    V_ASSERT(err == Error::kInvalidOperandSize && reports == 1, "embed_label with a size that is not 1/2/4/8 is refused and reported");
+    V_ASSERT(err == Error::kInvalidOperandSize && reports == 1, "embed_label with a size that is not 1, 2, 4 or 8 is refused and reported");
     V_ASSERT(emitted == 0 && c->_relocations._size == 0 && c->_unresolved_fixup_count == 0 && sec(sid)->_buffer._size == pos, "refused embed_label leaves buffer, relocations and fixups unchanged");
     V_WITNESS("embed-label-invalid-size");
     return;
@@ -93,7 +93,7 @@ static void embed_label_flow_s() {
   uint64_t field = load_le(sbuf[sid] + pos, size);
   bool fits = size == 8 || want < (1ull << (8 * (size & 7)));
   V_ASSERT((rerr == Error::kOk) == fits, "label address is accepted iff it fits the data size (never truncated)");
-  if (rerr == Error::kOk) { V_ASSERT(field == want, "embedded label address is base + section offset + label offset"); V_WITNESS("embed-label-address"); }
+  if (rerr == Error::kOk) { V_ASSERT(field == want, "embedded label address is base plus section offset plus label offset"); V_WITNESS("embed-label-address"); }
   else { V_ASSERT(field == 0, "refused label address leaves the placeholder"); if (DS != 8 && DS != 0) V_WITNESS("embed-label-address-refused"); }
 }
 template<uint32_t DS> static void embed_label_flow() {
@@ -173,7 +173,7 @@ static void embed_delta_flow_s(int mode) {
     V_WITNESS("embed-delta-direct");
   }
   else if (rerr == Error::kOk) {
-    V_ASSERT(uint64_t(as_signed) == delta, "label difference field holds (section + label) - (section + base label)");
+    V_ASSERT(uint64_t(as_signed) == delta, "label difference field holds (section plus label) - (section plus base label)");
     V_WITNESS("embed-delta-relocated");
   }
   else {
